@@ -293,3 +293,36 @@ Fixpoint expected_stabs (le : bool) (off : Z) (ss : list stab) : list (list (str
   | [] => []
   | s :: r => (annot_layout (stab_layout le) s, off) :: expected_stabs le (off + 12) r
   end.
+
+(* ------------------------------------------------------------------ the headers around an extent *)
+(* gABI chapter 4 "Section Header" / chapter 5 "Program Header": the ten / eight fields of the
+   header that describes a note extent or a stab table.  Only sh_offset + sh_size (p_offset +
+   p_filesz) locate the bytes; sh_name, sh_type, sh_flags, sh_addr, sh_link, sh_info,
+   sh_addralign, sh_entsize (p_type, p_flags, p_vaddr, p_paddr, p_memsz, p_align) are free:
+   a note's fields are padded to 4 bytes whatever sh_addralign / p_align say, and a stab record
+   is 12 bytes whatever sh_entsize says (GNU as writes 20 there for x86-64, 12 for i386, other
+   producers leave it 0). *)
+Record shdr := { sh_name : Z; sh_type : Z; sh_flags : Z; sh_addr : Z; sh_offset : Z; sh_size : Z;
+                 sh_link : Z; sh_info : Z; sh_addralign : Z; sh_entsize : Z }.
+Record phdr := { p_type : Z; p_flags : Z; p_offset : Z; p_vaddr : Z; p_paddr : Z; p_filesz : Z;
+                 p_memsz : Z; p_align : Z }.
+
+Definition shdr_vals (h : shdr) : list fval :=
+  [ VZ (sh_name h); VZ (sh_type h); VZ (sh_flags h); VZ (sh_addr h); VZ (sh_offset h); VZ (sh_size h);
+    VZ (sh_link h); VZ (sh_info h); VZ (sh_addralign h); VZ (sh_entsize h) ].
+(* p_flags sits after p_type in ELFCLASS64 and before p_align in ELFCLASS32 *)
+Definition phdr_vals (is64 : bool) (p : phdr) : list fval :=
+  if is64 then
+    [ VZ (p_type p); VZ (p_flags p); VZ (p_offset p); VZ (p_vaddr p); VZ (p_paddr p); VZ (p_filesz p);
+      VZ (p_memsz p); VZ (p_align p) ]
+  else
+    [ VZ (p_type p); VZ (p_offset p); VZ (p_vaddr p); VZ (p_paddr p); VZ (p_filesz p); VZ (p_memsz p);
+      VZ (p_flags p); VZ (p_align p) ].
+
+Definition encode_shdr (le is64 : bool) (h : shdr) : list Z :=
+  encode_layout (spec_Elf_Shdr le is64) (shdr_vals h).
+Definition encode_phdr (le is64 : bool) (p : phdr) : list Z :=
+  encode_layout (spec_Elf_Phdr le is64) (phdr_vals is64 p).
+(* every field fits its width (words: 32 bits; addresses, offsets, xwords: the class's width) *)
+Definition wf_shdr (le is64 : bool) (h : shdr) : bool := fits_layout (spec_Elf_Shdr le is64) (shdr_vals h).
+Definition wf_phdr (le is64 : bool) (p : phdr) : bool := fits_layout (spec_Elf_Phdr le is64) (phdr_vals is64 p).
